@@ -15,7 +15,7 @@ from . import witnesses
 RULE = ("a local bare remote and 2-3 clones; each clone's program is a short list of steps from {commit with AI lines on its own branch, push, "
         "fetch, pull}; the scheduler executes interleavings of the programs through the git-ai proxy — ALL interleavings for 2 clones x up to 3 "
         "steps each (quick: a seeded sample of program pairs, every interleaving of each; thorough: more pairs, 3 clones sampled, and a variant "
-        "with two pushes truly in parallel) — including first-time syncs where one side has no notes ref. Each note is fingerprinted when its "
+        "with two pushes truly in parallel) — including first-time syncs where one side has no notes ref, clones made late through the proxy, and a clone whose `origin` was a fork with its own notes history before it was re-pointed at the remote (stale, unrelated remote-tracking notes ref). Each note is fingerprinted when its "
         "author clone writes it. After EVERY step every location's map commit->note must grow monotonically (no entry lost; no entry replaced by a "
         "note whose base_commit_sha is another commit); after the closing round (every clone pushes, then every clone fetches) every clone and the "
         "remote hold, for every commit they have, the author's note. distinct = distinct executed interleavings (program pair + schedule)")
@@ -84,6 +84,22 @@ class Net:
         self.log.append([i, what, getattr(pr, "rc", None)])
         self.check_monotone("%d:%s" % (i, what))
 
+    def repoint(self, i):
+        """Clone i was made from a fork of the project (own bare repository with its own notes history), has synced notes with it under
+        the remote name `origin`, and now re-points `origin` at the one remote (`git remote set-url`): the remote-tracking notes ref
+        refs/notes/ai-remote/origin is stale and NOT an ancestor of the remote's notes."""
+        p = self.clones[i]
+        w = self.w
+        fork = os.path.join(w.root, "fork%d.git" % i)
+        w.ogit("clone", "-q", "--bare", self.remote, fork, cwd=w.root)
+        w.git("remote", "set-url", "origin", fork, cwd=p, plain=True)
+        self.step(i, "commit")
+        self.step(i, "push")
+        self.step(i, "fetch")
+        self.tracking_before_repoint = w.ogit("rev-parse", "-q", "--verify", "refs/notes/ai-remote/origin", cwd=p).strip()
+        w.git("remote", "set-url", "origin", self.remote, cwd=p, plain=True)
+        self.log.append([i, "origin re-pointed from its fork to the remote", 0])
+
     def check_monotone(self, where):
         for name, path in [("remote", self.remote)] + [("clone%d" % i, p) for i, p in enumerate(self.clones)]:
             now = self.loc_map(path)
@@ -149,6 +165,10 @@ def run_case(case):
             for t in ths: t.join()
             net.log.append(["parallel-push"])
             net.check_monotone("parallel push")
+        if case.get("repoint") is not None:
+            # the remote gets a notes history of its own first, then the other clone turns up with a stale tracking ref
+            net.step(1 - case["repoint"], "commit"); net.step(1 - case["repoint"], "push")
+            net.repoint(case["repoint"])
         for who in order:
             net.step(who, progs[who][idx[who]])
             idx[who] += 1
@@ -183,8 +203,8 @@ def run_case(case):
         if not net.viol:
             net.close()
         commits = len(net.author_note)
-        return dict(index=case["index"], viol=net.viol, stats=dict(steps=len(net.log), commits_with_notes=commits, locations=len(progs) + 1, late_clone_notes_missing_at_clone_time=getattr(net, "late_clone_missing", 0)),
-                    sig=json.dumps([progs, order, bool(case.get("parallel_push")), case.get("late_clone")]), log=net.log, nontrivial=commits > 0 and any("push" in p for p in progs),
+        return dict(index=case["index"], viol=net.viol, stats=dict(repointed_origins=1 if getattr(net, "tracking_before_repoint", "") else 0, steps=len(net.log), commits_with_notes=commits, locations=len(progs) + 1, late_clone_notes_missing_at_clone_time=getattr(net, "late_clone_missing", 0)),
+                    sig=json.dumps([progs, order, bool(case.get("parallel_push")), case.get("late_clone"), case.get("repoint")]), log=net.log, nontrivial=commits > 0 and any("push" in p for p in progs),
                     inconclusive=None, sample=dict(programs=progs, schedule=order, log=net.log))
     finally:
         net.destroy()
@@ -217,6 +237,13 @@ def main(tier, seed, replay=None):
         order = [0] * len(pa) + [1] * len(pb)
         rng.shuffle(order)
         cases.append(dict(seed=seed, index=i, progs=[pa, pb], order=order, late_clone=rng.choice(["plain", "commit"]))); i += 1
+    for j in range(8 if tier == "quick" else 40):
+        # a clone whose `origin` used to be a fork with its own notes history
+        pa = [rng.choice(STEPS) for _ in range(rng.choice([1, 2]))]
+        pb = [rng.choice(STEPS) for _ in range(rng.choice([1, 2]))]
+        order = [0] * len(pa) + [1] * len(pb)
+        rng.shuffle(order)
+        cases.append(dict(seed=seed, index=i, progs=[pa, pb], order=order, repoint=j % 2)); i += 1
     for _ in range(12 if tier == "quick" else 0):
         # three clones (sampled orders) also in the quick tier
         progs = [[rng.choice(STEPS) for _ in range(rng.choice([2, 3]))] for _ in range(3)]
